@@ -25,23 +25,30 @@ pub(crate) fn stub_bt_capture() -> std::backtrace::Backtrace {
 // O-crc: oracle standing for `assert_slice_crc`. Records what it was asked about.
 // ---------------------------------------------------------------------------------------------
 pub(crate) static mut CRC_CALLS: usize = 0;
-pub(crate) static mut CRC_LAST_PTR: usize = 0;
-pub(crate) static mut CRC_LAST_LEN: usize = 0;
-/// 0 = accept, 1 = reject, 2 = nondeterministic verdict (recorded in CRC_LAST_VERDICT)
-pub(crate) static mut CRC_MODE: u8 = 0;
-pub(crate) static mut CRC_LAST_ACCEPT: bool = true;
+/// (first byte of the block asked about, length asked about) for the first 4 calls
+pub(crate) static mut CRC_LOG: [(u8, usize); 4] = [(0, 0); 4];
+/// verdict per call: 0 = accept, 1 = reject, 2 = nondeterministic
+pub(crate) static mut CRC_MODE: [u8; 4] = [0; 4];
+pub(crate) static mut CRC_VERDICT: [bool; 4] = [true; 4];
+
+pub(crate) fn crc_reset(modes: [u8; 4]) {
+    unsafe {
+        CRC_CALLS = 0;
+        CRC_MODE = modes;
+    }
+}
 
 pub(crate) fn crc_oracle(buf: &[u8]) -> Result<()> {
     unsafe {
-        CRC_CALLS += 1;
-        CRC_LAST_PTR = buf.as_ptr() as usize;
-        CRC_LAST_LEN = buf.len();
-        let accept = match CRC_MODE {
+        let k = if CRC_CALLS < 4 { CRC_CALLS } else { 3 };
+        CRC_LOG[k] = (if buf.len() > 0 { buf[0] } else { 0 }, buf.len());
+        let accept = match CRC_MODE[k] {
             0 => true,
             1 => false,
             _ => kani::any(),
         };
-        CRC_LAST_ACCEPT = accept;
+        CRC_VERDICT[k] = accept;
+        CRC_CALLS += 1;
         if accept {
             Ok(())
         } else {
@@ -64,8 +71,9 @@ pub(crate) fn crc_oracle(buf: &[u8]) -> Result<()> {
 // (c14_prim_*), decided on the real functions with literal widths.
 // ---------------------------------------------------------------------------------------------
 pub(crate) const LOG_CAP: usize = 24;
-/// kind: 1 = unsigned integer, 2 = signed integer, 3 = raw data (value = first 8 bytes, LE)
-pub(crate) static mut LOG: [(u8, u64, usize); LOG_CAP] = [(0, 0, 0); LOG_CAP];
+/// kind: 1 = unsigned integer, 2 = signed integer, 3 = raw data.
+/// Integers: v[0] = value. Raw data: v = the first (up to 32) bytes, little endian packed.
+pub(crate) static mut LOG: [(u8, usize, [u64; 4]); LOG_CAP] = [(0, 0, [0; 4]); LOG_CAP];
 pub(crate) static mut LOG_N: usize = 0;
 pub(crate) static mut MON_WRITES: usize = 0;
 
@@ -76,12 +84,22 @@ pub(crate) fn log_reset() {
     }
 }
 
-fn log_push(kind: u8, value: u64, size: usize) {
+fn log_push(kind: u8, size: usize, v: [u64; 4]) {
     unsafe {
         assert!(LOG_N < LOG_CAP, "VERIF: harness log capacity exceeded");
-        LOG[LOG_N] = (kind, value, size);
+        LOG[LOG_N] = (kind, size, v);
         LOG_N += 1;
     }
+}
+
+pub(crate) fn pack32(buf: &[u8]) -> [u64; 4] {
+    let mut v = [0u64; 4];
+    let mut i = 0;
+    while i < buf.len() && i < 32 {
+        v[i / 8] |= (buf[i] as u64) << (8 * (i % 8));
+        i += 1;
+    }
+    v
 }
 
 pub(crate) fn mon_write_usized(_ser: &mut Serializer, value: u64, size: ByteSize) -> IoResult<usize> {
@@ -93,7 +111,7 @@ pub(crate) fn mon_write_usized(_ser: &mut Serializer, value: u64, size: ByteSize
         size >= 8 || value < (1u64 << (8 * size)),
         "VERIF: unsigned value does not fit the width chosen by the writer"
     );
-    log_push(1, value, size);
+    log_push(1, size, [value, 0, 0, 0]);
     Ok(size)
 }
 
@@ -109,51 +127,49 @@ pub(crate) fn mon_write_isized(_ser: &mut Serializer, value: i64, size: ByteSize
             "VERIF: signed value does not fit the width chosen by the writer"
         );
     }
-    log_push(2, value as u64, size);
+    log_push(2, size, [value as u64, 0, 0, 0]);
     Ok(size)
 }
 
 pub(crate) fn mon_write_u8(_ser: &mut Serializer, value: u8) -> IoResult<usize> {
-    log_push(1, value as u64, 1);
+    log_push(1, 1, [value as u64, 0, 0, 0]);
     Ok(1)
 }
 pub(crate) fn mon_write_u16(_ser: &mut Serializer, value: u16) -> IoResult<usize> {
-    log_push(1, value as u64, 2);
+    log_push(1, 2, [value as u64, 0, 0, 0]);
     Ok(2)
 }
 pub(crate) fn mon_write_u32(_ser: &mut Serializer, value: u32) -> IoResult<usize> {
-    log_push(1, value as u64, 4);
+    log_push(1, 4, [value as u64, 0, 0, 0]);
     Ok(4)
 }
 pub(crate) fn mon_write_u64(_ser: &mut Serializer, value: u64) -> IoResult<usize> {
-    log_push(1, value, 8);
+    log_push(1, 8, [value, 0, 0, 0]);
     Ok(8)
 }
 pub(crate) fn mon_write_data(_ser: &mut Serializer, buf: &[u8]) -> IoResult<usize> {
     if buf.len() > 0 {
-        let mut v: u64 = 0;
-        let mut i = 0;
-        while i < buf.len() && i < 8 {
-            v |= (buf[i] as u64) << (8 * i);
-            i += 1;
-        }
-        log_push(3, v, buf.len());
+        log_push(3, buf.len(), pack32(buf));
     }
     Ok(buf.len())
 }
 
-/// An expected primitive write.
+/// An expected primitive write: (kind, size, value / first bytes).
 #[derive(Clone, Copy)]
-pub(crate) struct W(pub u8, pub u64, pub usize);
+pub(crate) struct W(pub u8, pub usize, pub [u64; 4]);
 pub(crate) fn wu(v: u64, size: usize) -> W {
-    W(1, v, size)
+    W(1, size, [v, 0, 0, 0])
 }
 pub(crate) fn wi(v: i64, size: usize) -> W {
-    W(2, v as u64, size)
+    W(2, size, [v as u64, 0, 0, 0])
 }
-/// raw data of `size` bytes whose first (up to 8) bytes are `v` little endian
+/// raw data of `size` bytes whose first (up to 8) bytes are `v` little endian, the rest zero
 pub(crate) fn wd(v: u64, size: usize) -> W {
-    W(3, v, size)
+    W(3, size, [v, 0, 0, 0])
+}
+/// raw data of `size` bytes starting with `bytes` (<= 32 compared), the rest zero
+pub(crate) fn wdb(bytes: &[u8], size: usize) -> W {
+    W(3, size, pack32(bytes))
 }
 
 /// Symbolically: the ghost log equals `exp` (zero length data writes are ignored on both sides).
@@ -164,19 +180,22 @@ pub(crate) fn expect_writes(exp: &[W], real: &[u8]) {
         let mut k = 0;
         let mut i = 0;
         while i < exp.len() {
-            let W(kind, v, size) = exp[i];
+            let W(kind, size, v) = exp[i];
             if !(kind == 3 && size == 0) {
                 assert!(k < unsafe { LOG_N }, "VERIF: fewer fields written than the layout prescribes");
-                let (lk, lv, ls) = unsafe { LOG[k] };
+                let (lk, ls, lv) = unsafe { LOG[k] };
                 assert!(ls == size, "VERIF: field width differs from the layout");
-                // signed and unsigned writes of the same width produce the same bytes iff the
-                // values agree on `size` bytes
-                let mask = if size >= 8 { u64::MAX } else { (1u64 << (8 * size)) - 1 };
                 if kind == 3 || lk == 3 {
                     assert!(lk == kind, "VERIF: field kind differs from the layout");
-                    assert!(lv == v, "VERIF: data bytes differ from the layout");
+                    assert!(
+                        lv[0] == v[0] && lv[1] == v[1] && lv[2] == v[2] && lv[3] == v[3],
+                        "VERIF: data bytes differ from the layout"
+                    );
                 } else {
-                    assert!((lv & mask) == (v & mask), "VERIF: field value differs from the layout");
+                    // signed and unsigned writes of the same width produce the same bytes iff
+                    // the values agree on `size` bytes
+                    let mask = if size >= 8 { u64::MAX } else { (1u64 << (8 * size)) - 1 };
+                    assert!((lv[0] & mask) == (v[0] & mask), "VERIF: field value differs from the layout");
                 }
                 k += 1;
             }
@@ -185,16 +204,11 @@ pub(crate) fn expect_writes(exp: &[W], real: &[u8]) {
         assert!(k == unsafe { LOG_N }, "VERIF: more fields written than the layout prescribes");
     } else {
         let mut pos = 0usize;
-        for W(kind, v, size) in exp.iter().copied() {
+        for W(kind, size, v) in exp.iter().copied() {
             assert!(pos + size <= real.len(), "VERIF: fewer bytes written than the layout prescribes");
-            let n = if size < 8 { size } else { 8 };
+            let n = if kind == 3 { if size < 32 { size } else { 32 } } else if size < 8 { size } else { 8 };
             for i in 0..n {
-                assert!(real[pos + i] == (v >> (8 * i)) as u8, "VERIF: bytes written differ from the layout");
-            }
-            if kind == 3 {
-                for i in n..size {
-                    assert!(real[pos + i] == 0, "VERIF: bytes written differ from the layout");
-                }
+                assert!(real[pos + i] == (v[i / 8] >> (8 * (i % 8))) as u8, "VERIF: bytes written differ from the layout");
             }
             pos += size;
         }
